@@ -16,7 +16,14 @@ Inductive policy := PDef | PReu | PMts | PStk | PPlc | PBuf.
 (* p_x = sizeof(T) of the extra object (0: no promise_extra_storage wrapper)
    p_a = stack: initial value of the shared size state; placement: size of the user buffer; buffer: sizeof(item)
    p_b = buffer: initial number of items of the vector *)
-Record prm := mkPrm { p_pol : policy; p_x : Z; p_a : Z; p_b : Z }.
+Record prm := mkPrm { p_pol : policy; p_x : Z; p_a : Z; p_b : Z; p_xal : Z (* alignof(T) of the extra object *) }.
+
+(* promise_extra_storage (as repaired by fixes/C19-extra-align.patch): the extra object sits behind the frame at the next
+   offset that is a multiple of alignof(T), and the size handed to the base storage is kept a multiple of the pointer
+   size so that whatever the base puts behind it (owner pointer, flag byte) is aligned too *)
+Definition align_up (n a : Z) : Z := (n + a - 1) / a * a.
+Definition xoff (p : prm) (sz : Z) : Z := if 0 <? p_x p then align_up sz (p_xal p) else sz.
+Definition nreq (p : prm) (sz : Z) : Z := if 0 <? p_x p then align_up (xoff p sz + p_x p) 8 else sz.
 
 Inductive blk := BNull | BHeap (n : nat) | BOwn (n : nat).
 Definition blk_eqb (a b : blk) : bool :=
@@ -131,7 +138,7 @@ Definition bdealloc (p : prm) (h : heap) (s : sto) (b : blk) (tr : bool) : heap 
   end.
 
 (* ---------- frames, event log ---------- *)
-Record frame := mkFr { f_id : nat; f_blk : blk; f_n : Z; f_need : Z; f_room : Z; f_tr : bool }.
+Record frame := mkFr { f_id : nat; f_blk : blk; f_n : Z; f_need : Z; f_room : Z; f_tr : bool; f_sz : Z (* the compiler's request *) }.
 
 (* events: (code, frame id).  1 Base::alloc returned  2 extra object constructed  3 coroutine promise constructed
    6 coroutine promise destroyed  4 extra object destroyed  5 Base::dealloc called *)
@@ -181,13 +188,13 @@ Definition learn (p : prm) (c : core) (n : Z) (g : grant) : Z :=
    compiler constructs the promise in the returned memory *)
 Definition mk_frame (p : prm) (c : core) (slot : nat) (sz : Z) (r : heap * sto * grant) : core * frame :=
   let '(h1, s1, g) := r in
-  let n := sz + p_x p in
-  let f := mkFr (c_nfid c) (g_blk g) n (g_need g) (g_room g) (g_tr g) in
+  let n := nreq p sz in
+  let f := mkFr (c_nfid c) (g_blk g) n (g_need g) (g_room g) (g_tr g) sz in
   (mkCore h1 s1 ((slot, f) :: frs c) (S (c_nfid c)) (learn p c n g) (c_up c)
           (c_log c ++ create_evs (p_x p) (c_nfid c)), f).
 
 Definition create (p : prm) (c : core) (slot : nat) (sz : Z) : core * frame :=
-  mk_frame p c slot sz (balloc p (hp c) (st c) (sz + p_x p)).
+  mk_frame p c slot sz (balloc p (hp c) (st c) (nreq p sz)).
 
 (* frame destruction: promise destroyed, custom_allocator_base::operator delete (with_allocator.h:25-27) ->
    promise_extra_storage::dealloc :236-240 (x->~T(), then Base::dealloc(ptr, sz + sizeof(T))) *)
@@ -204,14 +211,14 @@ Definition destroy (p : prm) (c : core) : core :=
   mkCore h1 (st c) (frs c) (c_nfid c) (c_max c) false (c_log c).
 
 (* ---------- operations, guards ---------- *)
-Inductive op := OInit (x a b : Z) | OCreate (slot : nat) (sz : Z) | OFinish (slot : nat) | ODestroy | OBad.
+Inductive op := OInit (x a b xal : Z) | OCreate (slot : nat) (sz : Z) | OFinish (slot : nat) | ODestroy | OBad.
 
 Definition max_slots : nat := 64.
 
 (* structural validity: what the harness itself has to refuse (no such slot, storage not there) *)
 Definition wf_op (c : core) (o : op) : bool :=
   match o with
-  | OInit x a b => negb (c_up c) && Nat.eqb (c_nfid c) 0 && (0 <=? x) && (0 <=? a) && (0 <=? b)
+  | OInit x a b xal => negb (c_up c) && Nat.eqb (c_nfid c) 0 && (0 <=? x) && (0 <=? a) && (0 <=? b) && (0 <? xal)
   | OCreate slot sz => c_up c && (slot <? max_slots)%nat && (0 <? sz)
                        && match fget (frs c) slot with None => true | Some _ => false end
   | OFinish slot => c_up c && match fget (frs c) slot with Some _ => true | None => false end
@@ -227,10 +234,10 @@ Definition contract (p : prm) (c : core) (o : op) : bool :=
   | OCreate _ sz =>
       match p_pol p with
       | PReu | PBuf => match frs c with [] => true | _ => false end
-      | PPlc => match frs c with [] => sz + p_x p <=? p_a p | _ => false end
+      | PPlc => match frs c with [] => nreq p sz <=? p_a p | _ => false end
       | _ => true
       end
-  | OInit _ a _ => match p_pol p with PBuf => 0 <? a | _ => true end
+  | OInit _ a _ _ => match p_pol p with PBuf => 0 <? a | _ => true end
   | _ => true
   end.
 
@@ -246,15 +253,15 @@ Definition released (h1 : heap) (b : blk) : bool :=
 Definition create_obs (p : prm) (c c1 : core) (f : frame) : list Z :=
   [0; h_allocs (hp c1) - h_allocs (hp c); h_frees (hp c1) - h_frees (hp c);
    b2z (is_fresh (hp c) (f_blk f)); f_room f; overlaps (f_blk f) (frs c);
-   if 0 <? p_x p then Z.of_nat (f_id f) else 0] ++ ev_codes (create_evs (p_x p) (f_id f)).
+   if 0 <? p_x p then Z.of_nat (f_id f) else 0; if 0 <? p_x p then xoff p (f_sz f) else 0] ++ ev_codes (create_evs (p_x p) (f_id f)).
 Definition finish_obs (p : prm) (c c1 : core) (f : frame) : list Z :=
   [0; h_allocs (hp c1) - h_allocs (hp c); h_frees (hp c1) - h_frees (hp c);
-   b2z (released (hp c1) (f_blk f)); 1] ++ ev_codes (finish_evs (p_x p) (f_id f)).
+   b2z (released (hp c1) (f_blk f)); 1; f_sz f] ++ ev_codes (finish_evs (p_x p) (f_id f)).
 
 (* one op, executed unconditionally when structurally valid (no contract check) *)
 Definition exec (p : prm) (c : core) (o : op) : core * list Z :=
   match o with
-  | OInit _ _ _ => let c1 := init_core p in (c1, [0; h_allocs (hp c1); 0])
+  | OInit _ _ _ _ => let c1 := init_core p in (c1, [0; h_allocs (hp c1); 0])
   | OCreate slot sz => let '(c1, f) := create p c slot sz in (c1, create_obs p c c1 f)
   | OFinish slot =>
       match fget (frs c) slot with
@@ -267,7 +274,7 @@ Definition exec (p : prm) (c : core) (o : op) : core * list Z :=
 
 (* the parameters travel in the Init op *)
 Definition prm_of (pol : policy) (p : prm) (o : op) : prm :=
-  match o with OInit x a b => mkPrm pol x a b | _ => p end.
+  match o with OInit x a b xal => mkPrm pol x a b xal | _ => p end.
 
 (* ustep: only the structural guard (histories that may break the contract);  gstep: both guards *)
 Definition ustep (p : prm) (c : core) (o : op) : core * list Z :=
@@ -283,7 +290,7 @@ Fixpoint run_with (stp : prm -> core -> op -> core * list Z) (pol : policy) (p :
               let '(c1, ob) := stp p1 c o in
               let '(obs, r) := run_with stp pol p1 c1 t in (ob :: obs, r)
   end.
-Definition prm0 (pol : policy) : prm := mkPrm pol 0 0 0.
+Definition prm0 (pol : policy) : prm := mkPrm pol 0 0 0 8.
 Definition run_u pol l := run_with ustep pol (prm0 pol) core0 l.
 Definition run_g pol l := run_with gstep pol (prm0 pol) core0 l.
 
@@ -300,7 +307,8 @@ Definition contract_ok pol l := contract_ok_from pol (prm0 pol) core0 l.
 Definition n (z : Z) : nat := Z.to_nat z.
 Definition decode (l : list Z) : op :=
   match l with
-  | [0; x; a; b] => OInit x a b
+  | [0; x; a; b] => OInit x a b 8
+  | [0; x; a; b; xal] => OInit x a b xal
   | [1; slot; _; sz] => if 0 <=? slot then OCreate (n slot) sz else OBad
   | [2; slot] => if 0 <=? slot then OFinish (n slot) else OBad
   | [9] => ODestroy
@@ -317,73 +325,87 @@ Definition reuses (pol : policy) : bool :=
   match pol with PReu | PMts | PStk | PBuf | PPlc => true | PDef => false end.
 
 Record ost := mkO {
-  o_x : Z; o_up : bool; o_live : list (Z * Z);   (* slot, 1 if the frame did not cost an allocation-free reuse.. see below *)
-  o_max : Z; o_nc : Z; o_allocs : Z; o_frees : Z; o_ok : bool
+  o_x : Z; o_up : bool; o_live : list (Z * Z);   (* live frames: slot, requested size *)
+  o_max : Z; o_nc : Z; o_allocs : Z; o_frees : Z; o_ok : bool; o_xal : Z
 }.
 Fixpoint zassoc_mem (k : Z) (l : list (Z * Z)) : bool :=
   match l with [] => false | (a, _) :: t => Z.eqb k a || zassoc_mem k t end.
+Fixpoint zassoc_get (k : Z) (l : list (Z * Z)) : Z :=
+  match l with [] => -1 | (a, b) :: t => if Z.eqb k a then b else zassoc_get k t end.
 Fixpoint zassoc_del (k : Z) (l : list (Z * Z)) : list (Z * Z) :=
   match l with [] => [] | (a, b) :: t => if Z.eqb k a then t else (a, b) :: zassoc_del k t end.
 Definition zlist_eqb (a b : list Z) : bool :=
   Nat.eqb (length a) (length b) && forallb (fun q => Z.eqb (fst q) (snd q)) (combine a b).
 
-(* one (op, observation) pair.  Rejected ops must be rejected for a reason visible in the ops themselves is
+(* one (op, observation) pair.  That rejected ops are rejected for a reason visible in the ops themselves is
    not checked here (that is the correspondence check); the oracle checks the property on accepted ops:
-   size      room - (sz + x) >= trailer
+   size      room behind the frame covers the request, the extra object at its observed offset and the policy's trailer;
+             the extra object lies behind the frame at an offset that is a multiple of its alignment
    exclusive overlap count 0
-   freed     finish frees at most one block, and exactly when the frame's block was released; allocations = frees at the end
+   freed     finish frees at most one block, and exactly when the frame's block was released; the storage's dealloc is
+             told the size its alloc was asked for; allocations = frees at the end
    warm      a create no larger than an earlier one, at a moment when the policy's block is free, costs 0 allocations
    extra     event order alloc < ctor < promise | promise dtor < dtor < dealloc, each once; value readable at once *)
+Definition oinit (s : ost) (x xal al fr : Z) : ost :=
+  mkO x true [] 0 0 (o_allocs s + al) (o_frees s + fr) (o_ok s && (fr =? 0) && (0 <=? al)) xal.
+
 Definition ostep (pol : policy) (s : ost) (q : list Z * list Z) : ost :=
   let '(o, ob) := q in
-  let bad := mkO (o_x s) (o_up s) (o_live s) (o_max s) (o_nc s) (o_allocs s) (o_frees s) false in
+  let bad := mkO (o_x s) (o_up s) (o_live s) (o_max s) (o_nc s) (o_allocs s) (o_frees s) false (o_xal s) in
   match o, ob with
   | _, [1] => s
-  | [0; x; a; b], [0; al; fr] =>
-      mkO x true [] 0 0 (o_allocs s + al) (o_frees s + fr) (o_ok s && (fr =? 0) && (0 <=? al))
-  | [1; slot; _; sz], 0 :: al :: fr :: fresh :: room :: ovl :: xv :: evs =>
-      let n := sz + o_x s in
+  | [0; x; a; b], [0; al; fr] => oinit s x 8 al fr
+  | [0; x; a; b; xal], [0; al; fr] => oinit s x xal al fr
+  | [1; slot; _; sz], 0 :: al :: fr :: fresh :: room :: ovl :: xv :: xo :: evs =>
+      let n := if 0 <? o_x s then align_up (align_up sz (o_xal s) + o_x s) 8 else sz in
       let block_free := match pol with PMts => match o_live s with [] => true | _ => false end | _ => true end in
       let warm := reuses pol && block_free && (n <=? o_max s) in
-      let ok := (trailer pol <=? room - n) && (ovl =? 0) && (0 <=? al) && (0 <=? fr)
+      let placed := if 0 <? o_x s
+                    then (sz <=? xo) && (xo mod o_xal s =? 0) && (trailer pol <=? room - (xo + o_x s))
+                    else (xo =? 0) && (trailer pol <=? room - sz) in
+      let ok := placed && (ovl =? 0) && (0 <=? al) && (0 <=? fr)
                 && (if warm then al =? 0 else true)
                 && (if fresh =? 0 then al =? 0 else true)
                 && zlist_eqb evs (ev_codes (create_evs (o_x s) 0))
                 && (xv =? (if 0 <? o_x s then o_nc s else 0)) in
-      mkO (o_x s) (o_up s) ((slot, fresh) :: o_live s)
+      mkO (o_x s) (o_up s) ((slot, sz) :: o_live s)
           (if block_free then Z.max (o_max s) n else o_max s) (o_nc s + 1)
-          (o_allocs s + al) (o_frees s + fr) (o_ok s && ok)
-  | [2; slot], 0 :: al :: fr :: rel :: can :: evs =>
+          (o_allocs s + al) (o_frees s + fr) (o_ok s && ok) (o_xal s)
+  | [2; slot], 0 :: al :: fr :: rel :: can :: dsz :: evs =>
       let ok := zassoc_mem slot (o_live s) && (al =? 0) && (fr =? rel) && ((rel =? 0) || (rel =? 1)) && (can =? 1)
+                && (dsz =? zassoc_get slot (o_live s))      (* dealloc is told the size alloc was asked for *)
                 && zlist_eqb evs (ev_codes (finish_evs (o_x s) 0)) in
-      mkO (o_x s) (o_up s) (zassoc_del slot (o_live s)) (o_max s) (o_nc s) (o_allocs s + al) (o_frees s + fr) (o_ok s && ok)
+      mkO (o_x s) (o_up s) (zassoc_del slot (o_live s)) (o_max s) (o_nc s) (o_allocs s + al) (o_frees s + fr) (o_ok s && ok) (o_xal s)
   | [9], [0; al; fr] =>
       mkO (o_x s) false (o_live s) (o_max s) (o_nc s) (o_allocs s + al) (o_frees s + fr)
           (o_ok s && (al =? 0) && (0 <=? fr) && (o_allocs s + al =? o_frees s + fr)
-           && match o_live s with [] => true | _ => false end)
+           && match o_live s with [] => true | _ => false end) (o_xal s)
   | _, _ => bad
   end.
 
 Definition st_oracle (pol : policy) (ops obs : list (list Z)) : bool :=
-  let s := fold_left (ostep pol) (combine ops obs) (mkO 0 false [] 0 0 0 0 true) in
+  let s := fold_left (ostep pol) (combine ops obs) (mkO 0 false [] 0 0 0 0 true 8) in
   Nat.eqb (length ops) (length obs) && o_ok s && negb (o_up s).
 
 (* ====================================================================================================
    Interleaving model of reusable_storage_mtsafe: any number of threads, each running a program of
    creations / completions of its own coroutines on ONE shared storage.  One model step = the code between
    two hook points:  busy_x (40) just before `_busy.exchange` (:160);  busy_g (42) in the winner's branch just
-   before reusable_storage::alloc touches _ptr/_capacity (:164);  busy_s (41) at the top of dealloc (:172). *)
+   before reusable_storage::alloc touches _ptr/_capacity (:164);  busy_n (43) inside reusable_storage::alloc between
+   `::operator delete(_ptr)` (:50) and `_ptr = ::operator new(sz)` (:51), where _ptr dangles;  busy_s (41) at the top of
+   dealloc (:172). *)
 Inductive act := ACreate (sz : Z) | AFin (newest : bool).
 Record thread := mkTh {
   t_prog : list act;
   t_won : option Z;        (* Some sz: won the exchange, pending at busy_g *)
   t_own : list nat;        (* slots of its live frames, oldest first *)
   t_done : nat;            (* actions completed *)
-  t_res : list (list Z)    (* one result line per completed action *)
+  t_res : list (list Z);   (* one result line per completed action *)
+  t_grow : option Z        (* Some k: holder paused at busy_n, inside reusable_storage::alloc between :50 and :51 (k frees done) *)
 }.
 Record cst := mkC { c_core : core; c_thr : list thread }.
 
-Definition pm : prm := mkPrm PMts 0 0 0.
+Definition pm : prm := mkPrm PMts 0 0 0 8.
 
 Definition pick (nw : bool) (l : list nat) : option (nat * list nat) :=
   match l with [] => None | x :: t => if nw then Some (last l x, removelast l) else Some (x, t) end.
@@ -391,12 +413,12 @@ Definition pick (nw : bool) (l : list nat) : option (nat * list nat) :=
 Definition with_busy (c : core) (b : bool) : core :=
   mkCore (hp c) (set_busy (st c) b) (frs c) (c_nfid c) (c_max c) (c_up c) (c_log c).
 
-Definition cres (i : nat) (t : thread) (c c1 : core) (f : frame) : list Z :=
-  [Z.of_nat i; Z.of_nat (t_done t); 1; h_allocs (hp c1) - h_allocs (hp c); h_frees (hp c1) - h_frees (hp c);
+Definition cres (i : nat) (t : thread) (c c1 : core) (f : frame) (xfr : Z) : list Z :=
+  [Z.of_nat i; Z.of_nat (t_done t); 1; h_allocs (hp c1) - h_allocs (hp c); h_frees (hp c1) - h_frees (hp c) + xfr;
    b2z (is_fresh (hp c) (f_blk f)); f_room f; overlaps (f_blk f) (frs c)].
 Definition fres (i : nat) (t : thread) (c c1 : core) (f : frame) : list Z :=
   [Z.of_nat i; Z.of_nat (t_done t); 2; h_allocs (hp c1) - h_allocs (hp c); h_frees (hp c1) - h_frees (hp c);
-   b2z (released (hp c1) (f_blk f)); 1].
+   b2z (released (hp c1) (f_blk f)); 1; f_sz f].
 
 Definition upd (s : cst) (c : core) (i : nat) (t : thread) : cst := mkC c (set_nth (c_thr s) i t).
 
@@ -408,8 +430,21 @@ Definition tstep (s : cst) (i : nat) : cst * Z :=
       match t_won t with
       | Some sz =>
           let slot := c_nfid c in
-          let '(c1, f) := mk_frame pm c slot sz (mts_won (hp c) (st c) sz) in
-          (upd s c1 i (mkTh (t_prog t) None (t_own t ++ [slot]) (S (t_done t)) (t_res t ++ [cres i t c c1 f])), 42)
+          match t_grow t with
+          | None =>                                   (* busy_g: reusable_storage::alloc(sz + 8), :49 *)
+              if sz + ptr_sz >? s_cap (st c) then     (* :50 delete the old block; _ptr keeps its value until :51 *)
+                let c1 := mkCore (hdel_opt (hp c) (s_ptr (st c))) (st c) (frs c) (c_nfid c) (c_max c) (c_up c) (c_log c) in
+                (upd s c1 i (mkTh (t_prog t) (Some sz) (t_own t) (t_done t) (t_res t)
+                                  (Some (h_frees (hp c1) - h_frees (hp c)))), 42)
+              else
+                let '(c1, f) := mk_frame pm c slot sz (mts_won (hp c) (st c) sz) in
+                (upd s c1 i (mkTh (t_prog t) None (t_own t ++ [slot]) (S (t_done t)) (t_res t ++ [cres i t c c1 f 0]) None), 42)
+          | Some fr =>                                (* busy_n: :51-52, then the trailer :167-168 *)
+              let '(h1, id) := hnew (hp c) (sz + ptr_sz) in
+              let s1 := mkSto (Some id) (sz + ptr_sz) (s_busy (st c)) (s_state (st c)) (s_bsize (st c)) (s_bcap (st c)) (s_ownc (st c)) in
+              let '(c1, f) := mk_frame pm c slot sz (h1, s1, mkGr (BHeap id) (sz + ptr_sz) (sz + ptr_sz) true) in
+              (upd s c1 i (mkTh (t_prog t) None (t_own t ++ [slot]) (S (t_done t)) (t_res t ++ [cres i t c c1 f fr]) None), 43)
+          end
       | None =>
           match t_prog t with
           | [] => (s, 0)
@@ -417,11 +452,11 @@ Definition tstep (s : cst) (i : nat) : cst * Z :=
               if s_busy (st c) then
                 let slot := c_nfid c in
                 let '(c1, f) := mk_frame pm c slot sz (mts_lost (hp c) (st c) sz) in
-                (upd s c1 i (mkTh r None (t_own t ++ [slot]) (S (t_done t)) (t_res t ++ [cres i t c c1 f])), 40)
-              else (upd s (with_busy c true) i (mkTh r (Some sz) (t_own t) (t_done t) (t_res t)), 40)
+                (upd s c1 i (mkTh r None (t_own t ++ [slot]) (S (t_done t)) (t_res t ++ [cres i t c c1 f 0]) None), 40)
+              else (upd s (with_busy c true) i (mkTh r (Some sz) (t_own t) (t_done t) (t_res t) None), 40)
           | AFin nw :: r =>
               let skip := (upd s c i (mkTh r None (t_own t) (S (t_done t))
-                                       (t_res t ++ [[Z.of_nat i; Z.of_nat (t_done t); 0]])), 41) in
+                                       (t_res t ++ [[Z.of_nat i; Z.of_nat (t_done t); 0]]) None), 41) in
               match pick nw (t_own t) with
               | None => skip
               | Some (slot, rest) =>
@@ -429,7 +464,7 @@ Definition tstep (s : cst) (i : nat) : cst * Z :=
                   | None => skip
                   | Some f =>
                       let c1 := finish pm c slot f in
-                      (upd s c1 i (mkTh r None rest (S (t_done t)) (t_res t ++ [fres i t c c1 f])), 41)
+                      (upd s c1 i (mkTh r None rest (S (t_done t)) (t_res t ++ [fres i t c c1 f]) None), 41)
                   end
               end
           end
@@ -473,7 +508,7 @@ Fixpoint decode_prog (l : list Z) : list act :=
   | _ => []
   end.
 Definition decode_thread (l : list Z) : list thread :=
-  match l with 2 :: r => [mkTh (sanitize 0 (decode_prog r)) None [] 0 []] | _ => [] end.
+  match l with 2 :: r => [mkTh (sanitize 0 (decode_prog r)) None [] 0 [] None] | _ => [] end.
 Definition decode_sched (l : list Z) : list Z := match l with 9 :: r => r | _ => [] end.
 
 Definition cinit (ops : list (list Z)) : cst := mkC (init_core pm) (flat_map decode_thread ops).
@@ -482,7 +517,7 @@ Fixpoint sumlen (l : list thread) : nat :=
 
 Definition mt_final (ops : list (list Z)) : cst * list (nat * Z) :=
   let s0 := cinit ops in
-  run_sched (2 * sumlen (c_thr s0) + 2) s0 (flat_map decode_sched ops) [].
+  run_sched (3 * sumlen (c_thr s0) + 2) s0 (flat_map decode_sched ops) [].
 
 Definition mt_run (ops : list (list Z)) : list (list Z) :=
   let '(s, tr) := mt_final ops in
@@ -503,7 +538,7 @@ Definition mt_line_ok (ths : list thread) (l : list Z) : bool :=
   | [tid; j; 1; al; fr; fresh; room; ovl] => (0 <=? al) && (al <=? 1) && (fr <=? 1) && (0 <=? fr) && (ovl =? 0)
                                            && (if fresh =? 0 then al =? 0 else true)
                                            && (0 <? act_size ths tid j) && (ptr_sz <=? room - act_size ths tid j)
-  | [_; _; 2; al; fr; rel; can] => (al =? 0) && (fr =? rel) && ((rel =? 0) || (rel =? 1)) && (can =? 1)
+  | [_; _; 2; al; fr; rel; can; dsz] => (al =? 0) && (fr =? rel) && ((rel =? 0) || (rel =? 1)) && (can =? 1) && (0 <? dsz)
   | [10; a; f; lv] => (a =? f) && (lv =? 0)
   | _ => false
   end.
